@@ -847,6 +847,10 @@ struct static_array<T, ::boost::multi::dimensionality_type{0}, Alloc>  // NOLINT
 		}
 	}
 
+	template<typename OtherT, typename OtherEPtr, class OtherLayout>
+	explicit static_array(multi::const_subarray<OtherT, 0, OtherEPtr, OtherLayout> const& other)
+	: static_array(other, allocator_type{}) {}
+
 	template<class TT, class... Args>
 	explicit static_array(multi::static_array<TT, 0, Args...> const& other, allocator_type const& alloc)  // TODO(correaa) : call other constructor (above)
 	: array_alloc{alloc}, ref(static_array::allocate(other.num_elements()), extensions(other)) {
@@ -892,7 +896,7 @@ struct static_array<T, ::boost::multi::dimensionality_type{0}, Alloc>  // NOLINT
 	: static_array(multi::iextensions<0>{}, elem) {}
 
 	template<class Singleton,
-	         std::enable_if_t<!std::is_base_of_v<static_array, Singleton> && !std::is_same_v<Singleton, typename static_array::element_type>, int> = 0,
+	         std::enable_if_t<!std::is_base_of_v<static_array, Singleton> && !std::is_same_v<Singleton, typename static_array::element_type> && !multi::is_subarray<Singleton>::value, int> = 0,  // references and other arrays have their own constructors: `&single` is not a pointer to an element for them
 	         class                                                                                                                                 = decltype(adl_copy_n(&std::declval<Singleton>(), 1, typename static_array::element_ptr{}))>
 	// cppcheck-suppress noExplicitConstructor ; to allow terse syntax  // NOLINTNEXTLINE(runtime/explicit)
 	/*implict*/ static_array(Singleton const& single)  // NOLINT(google-explicit-constructor,hicpp-explicit-conversions) this is used by the 
